@@ -12,6 +12,7 @@ use hyperqueue::transfer::messages::{
 };
 use smallvec::smallvec;
 use tako::gateway::{CrashLimit, LostWorkerReason, ResourceRequest, ResourceRequestEntry, ResourceRequestVariants};
+use tako::internal::messages::worker::ToWorkerMessage;
 use tako::program::ProgramDefinition;
 use tako::resources::{AllocationRequest, ResourceAmount};
 use tako::resources::ResourceDescriptor;
@@ -195,6 +196,7 @@ pub struct Sim {
     pub job: JobView,
     pub core: crate::coreview::CoreView,
     pub mon: crate::monitors::Monitors,
+    last_client_sent: Vec<(u32, ToWorkerMessage)>,
     completed: BTreeMap<u32, u32>,
     known_jobs: Vec<u32>,
     open_jobs: Vec<u32>,
@@ -339,6 +341,7 @@ impl Sim {
             job: JobView { lines: vec![] },
             core: Default::default(),
             mon: Default::default(),
+            last_client_sent: Vec::new(),
             completed: Default::default(),
             known_jobs: vec![],
             open_jobs: vec![],
@@ -365,8 +368,8 @@ impl Sim {
         self.completed = completed;
         for cb in &cbs {
             match &cb.kind {
-                CbKind::WorkerLost { worker, running, .. } => {
-                    self.mon.worker_lost(*worker, running);
+                CbKind::WorkerLost { worker, running, reason } => {
+                    self.mon.worker_lost(*worker, running, reason.is_failure());
                     self.mon.events(&cb.events);
                 }
                 CbKind::Error { task, ret, .. } => {
@@ -430,7 +433,14 @@ impl Sim {
         self.mon.resinv(&snap);
     }
 
+    fn act_line(&mut self, l: String) {
+        self.job.lines.push(format!("act {l}"));
+        self.core.lines.push(format!("act {l}"));
+    }
+
     fn client_op(&mut self, op_line: String, msg: FromClientMessage) -> Option<ToClientMessage> {
+        let json = serde_json::to_string(&msg).unwrap();
+        self.act_line(format!("client {json} ## {op_line}"));
         self.job.lines.push(format!("op {op_line}"));
         self.log.push(format!("client {op_line}"));
         let resp = self.guarded(|s| s.world.client(msg));
@@ -451,8 +461,113 @@ impl Sim {
         self.completed = completed;
         self.mon.events(&evs);
         let cbs = self.world.take_callbacks();
+        self.last_client_sent = self.world.sent.iter().map(|(w, m)| (*w, crate::world::clone_to_worker(m))).collect();
         self.core_flush(vec![], &cbs);
         resp
+    }
+
+    /// one client request through the real rpc loop, with the response printed in the job view
+    pub fn client_action(&mut self, op_line: String, msg: FromClientMessage) {
+        let is_submit = matches!(msg, FromClientMessage::Submit(..));
+        let is_forget = matches!(msg, FromClientMessage::ForgetJob(..));
+        let before: Vec<TaskId> = self.world.server.task_ids();
+        // auto-id submit into an existing job: (job, largest id before, number of ids expected)
+        let auto: Option<(u32, Option<u32>, u32, Vec<u32>)> = match &msg {
+            FromClientMessage::Submit(r, _) => match (&r.job_id, &r.submit_desc.task_desc) {
+                (Some(j), JobTaskDescription::Array { ids, entries, .. }) if ids.is_empty() => {
+                    let state = self.world.state_ref.get();
+                    state.get_job(*j).filter(|job| job.is_open()).map(|job| {
+                        let existing: Vec<u32> = job.tasks.keys().map(|k| k.as_num()).collect();
+                        (j.as_num(), existing.iter().max().copied(), entries.as_ref().map(|e| e.len() as u32).unwrap_or(1), existing)
+                    })
+                }
+                _ => None,
+            },
+            _ => None,
+        };
+        let executing_before = self.world.running_tasks();
+        self.world.sent.clear();
+        let resp = self.client_op(op_line, msg);
+        if self.panicked.is_some() {
+            return;
+        }
+        match resp {
+            Some(ToClientMessage::SubmitResponse(r)) => {
+                let line = match &r {
+                    SubmitResponse::Ok { job, .. } => {
+                        let id = job.info.id.as_num();
+                        if !self.known_jobs.contains(&id) {
+                            self.known_jobs.push(id);
+                        }
+                        format!("ok {id}")
+                    }
+                    SubmitResponse::JobNotOpened => "notopened".into(),
+                    SubmitResponse::JobNotFound => "notfound".into(),
+                    SubmitResponse::TaskIdAlreadyExists(t) => format!("exists {}", t.as_num()),
+                    SubmitResponse::NonUniqueTaskId(t) => format!("nonunique {}", t.as_num()),
+                    SubmitResponse::InvalidDependencies(t) => format!("invaliddeps {}", t.as_num()),
+                };
+                self.job.lines.push(format!("out resp submit {line}"));
+            }
+            Some(ToClientMessage::OpenJobResponse(r)) => {
+                let id = r.job_id.as_num();
+                self.known_jobs.push(id);
+                self.open_jobs.push(id);
+                self.job.lines.push(format!("out resp open {id}"));
+            }
+            Some(ToClientMessage::CloseJobResponse(rs)) => {
+                for (j, r) in rs {
+                    let t = match r {
+                        CloseJobResponse::Closed => {
+                            self.open_jobs.retain(|x| *x != j.as_num());
+                            "closed"
+                        }
+                        CloseJobResponse::InvalidJob => "invalid",
+                        CloseJobResponse::AlreadyClosed => "already",
+                    };
+                    self.job.lines.push(format!("out resp close {} {}", j.as_num(), t));
+                }
+            }
+            Some(ToClientMessage::CancelJobResponse(rs)) => {
+                for (j, r) in rs {
+                    let t = match r {
+                        CancelJobResponse::Canceled(ts, n) => {
+                            let now: Vec<TaskId> = ts.iter().map(|t| TaskId::new(j, *t)).collect();
+                            let told = std::mem::take(&mut self.last_client_sent);
+                            self.mon.cancel_stops(&now, &executing_before, &told);
+                            self.last_client_sent = told;
+                            self.mon.cancel_answered(ts.iter().map(|t| TaskId::new(j, *t)));
+                            let mut ts: Vec<u32> = ts.iter().map(|t| t.as_num()).collect();
+                            ts.sort();
+                            format!("canceled {} {}", list(ts.iter()), n)
+                        }
+                        CancelJobResponse::InvalidJob => "invalid".to_string(),
+                        CancelJobResponse::Failed(_) => "failed".to_string(),
+                    };
+                    self.job.lines.push(format!("out resp cancel {} {}", j.as_num(), t));
+                }
+            }
+            Some(ToClientMessage::ForgetJobResponse(r)) => {
+                self.job.lines.push(format!("out resp forget {} {}", r.forgotten, r.ignored));
+            }
+            other => self.job.lines.push(format!("out resp !unexpected {other:?}").replace('\n', " ")),
+        }
+        if let Some((j, max_before, count, existing)) = auto {
+            let state = self.world.state_ref.get();
+            if let Some(job) = state.get_job(JobId::new(j)) {
+                let new_ids: Vec<u32> = job.tasks.keys().map(|k| k.as_num()).filter(|k| !existing.contains(k)).collect();
+                if !new_ids.is_empty() {
+                    self.mon.auto_ids(j, max_before, count, &new_ids);
+                }
+            }
+        }
+        if is_submit {
+            let after: Vec<TaskId> = self.world.server.task_ids();
+            let new: Vec<TaskId> = after.iter().filter(|t| !before.contains(t)).cloned().collect();
+            self.job.lines.push(format!("out core {}", tids(&new)));
+        }
+        let _ = is_forget;
+        self.job_snapshot();
     }
 
     fn job_snapshot(&mut self) {
@@ -580,7 +695,6 @@ impl Sim {
             max_fails.map(|m| m.to_string()).unwrap_or("-".into()),
             text
         );
-        let before: Vec<TaskId> = self.world.server.task_ids();
         let msg = FromClientMessage::Submit(
             SubmitRequest {
                 job_desc: JobDescription { name: "j".into(), max_fails },
@@ -589,34 +703,7 @@ impl Sim {
             },
             None,
         );
-        let resp = self.client_op(op, msg);
-        if self.panicked.is_some() {
-            return;
-        }
-        match resp {
-            Some(ToClientMessage::SubmitResponse(r)) => {
-                let line = match &r {
-                    SubmitResponse::Ok { job, .. } => {
-                        let id = job.info.id.as_num();
-                        if !self.known_jobs.contains(&id) {
-                            self.known_jobs.push(id);
-                        }
-                        format!("ok {id}")
-                    }
-                    SubmitResponse::JobNotOpened => "notopened".into(),
-                    SubmitResponse::JobNotFound => "notfound".into(),
-                    SubmitResponse::TaskIdAlreadyExists(t) => format!("exists {}", t.as_num()),
-                    SubmitResponse::NonUniqueTaskId(t) => format!("nonunique {}", t.as_num()),
-                    SubmitResponse::InvalidDependencies(t) => format!("invaliddeps {}", t.as_num()),
-                };
-                self.job.lines.push(format!("out resp submit {line}"));
-            }
-            other => self.job.lines.push(format!("out resp !unexpected {other:?}").replace('\n', " ")),
-        }
-        let after: Vec<TaskId> = self.world.server.task_ids();
-        let new: Vec<TaskId> = after.iter().filter(|t| !before.contains(t)).cloned().collect();
-        self.job.lines.push(format!("out core {}", tids(&new)));
-        self.job_snapshot();
+        self.client_action(op, msg);
     }
 
     /// probe used by src/bin/probe_mn.rs
@@ -657,19 +744,7 @@ impl Sim {
             _ => None,
         };
         let op = format!("open mf={}", max_fails.map(|m| m.to_string()).unwrap_or("-".into()));
-        let resp = self.client_op(op, FromClientMessage::OpenJob(JobDescription { name: "o".into(), max_fails }));
-        if self.panicked.is_some() {
-            return;
-        }
-        if let Some(ToClientMessage::OpenJobResponse(r)) = resp {
-            let id = r.job_id.as_num();
-            self.known_jobs.push(id);
-            self.open_jobs.push(id);
-            self.job.lines.push(format!("out resp open {id}"));
-        } else {
-            self.job.lines.push("out resp !unexpected".into());
-        }
-        self.job_snapshot();
+        self.client_action(op, FromClientMessage::OpenJob(JobDescription { name: "o".into(), max_fails }));
     }
 
     fn pick_jobs(&mut self) -> Vec<u32> {
@@ -690,80 +765,25 @@ impl Sim {
 
     pub fn act_close(&mut self) {
         let ids = self.pick_jobs();
-        let resp = self.client_op(
-            format!("close {}", list(ids.iter())),
-            FromClientMessage::CloseJob(CloseJobRequest { selector: Self::selector(&ids) }),
-        );
-        if self.panicked.is_some() {
-            return;
-        }
-        if let Some(ToClientMessage::CloseJobResponse(rs)) = resp {
-            for (j, r) in rs {
-                let t = match r {
-                    CloseJobResponse::Closed => {
-                        self.open_jobs.retain(|x| *x != j.as_num());
-                        "closed"
-                    }
-                    CloseJobResponse::InvalidJob => "invalid",
-                    CloseJobResponse::AlreadyClosed => "already",
-                };
-                self.job.lines.push(format!("out resp close {} {}", j.as_num(), t));
-            }
-        } else {
-            self.job.lines.push("out resp !unexpected".into());
-        }
-        self.job_snapshot();
+        self.client_action(format!("close {}", list(ids.iter())), FromClientMessage::CloseJob(CloseJobRequest { selector: Self::selector(&ids) }));
     }
 
     pub fn act_cancel(&mut self) {
         let ids = self.pick_jobs();
-        let resp = self.client_op(
-            format!("cancel {}", list(ids.iter())),
-            FromClientMessage::Cancel(CancelRequest { selector: Self::selector(&ids), reason: None }),
-        );
-        if self.panicked.is_some() {
-            return;
-        }
-        if let Some(ToClientMessage::CancelJobResponse(rs)) = resp {
-            for (j, r) in rs {
-                let t = match r {
-                    CancelJobResponse::Canceled(ts, n) => {
-                        self.mon.cancel_answered(ts.iter().map(|t| TaskId::new(j, *t)));
-                        let mut ts: Vec<u32> = ts.iter().map(|t| t.as_num()).collect();
-                        ts.sort();
-                        format!("canceled {} {}", list(ts.iter()), n)
-                    }
-                    CancelJobResponse::InvalidJob => "invalid".to_string(),
-                    CancelJobResponse::Failed(_) => "failed".to_string(),
-                };
-                self.job.lines.push(format!("out resp cancel {} {}", j.as_num(), t));
-            }
-        } else {
-            self.job.lines.push("out resp !unexpected".into());
-        }
-        self.job_snapshot();
+        self.client_action(format!("cancel {}", list(ids.iter())), FromClientMessage::Cancel(CancelRequest { selector: Self::selector(&ids), reason: None }));
     }
 
     pub fn act_forget(&mut self) {
         let ids = self.pick_jobs();
         let all = [Status::Finished, Status::Failed, Status::Canceled, Status::Aborted];
         let filter: Vec<Status> = all.iter().filter(|_| self.rng.chance(3, 4)).cloned().collect();
-        let resp = self.client_op(
+        self.client_action(
             format!("forget {} {}", list(ids.iter()), list(filter.iter().map(|s| status_name(*s)))),
             FromClientMessage::ForgetJob(ForgetJobRequest { selector: Self::selector(&ids), filter }),
         );
-        if self.panicked.is_some() {
-            return;
-        }
-        if let Some(ToClientMessage::ForgetJobResponse(r)) = resp {
-            self.job.lines.push(format!("out resp forget {} {}", r.forgotten, r.ignored));
-        } else {
-            self.job.lines.push("out resp !unexpected".into());
-        }
         // forgotten jobs disappear from the state
         let present: Vec<u32> = snapshot_jobs(&self.world.state_ref).iter().map(|j| j.id).collect();
         self.known_jobs.retain(|j| present.contains(j) || self.rng.chance(1, 2));
-        self.job_snapshot();
     }
 
     // ---- cluster actions ------------------------------------------------------------------
@@ -771,15 +791,21 @@ impl Sim {
     fn world_action(&mut self, core_ops: Vec<String>, f: impl FnOnce(&mut Sim)) {
         self.guarded(|s| f(s));
         self.flush_callbacks(core_ops);
-        if let Some(p) = &self.panicked {
-            let l = format!("mon FAIL c09.panic {} {}", panic_site(p), p.replace('\n', " "));
+        if let Some(p) = self.panicked.clone() {
+            let l = format!("mon FAIL c09.panic {} {}", panic_site(&p), p.replace('\n', " "));
             self.job.lines.push(l.clone());
             self.core.lines.push(l);
+            self.mon.job_layer_panic(&panic_site(&p), &p);
+            let fails = std::mem::take(&mut self.mon.fails);
+            for f in fails {
+                self.job.lines.push(f.clone());
+                self.core.lines.push(f);
+            }
         }
     }
 
     pub fn act_add_worker(&mut self) {
-        let (desc, totals) = gen_worker_resources(&mut self.rng, self.profile);
+        let (desc, _totals) = gen_worker_resources(&mut self.rng, self.profile);
         let group = if self.profile == 2 {
             if self.rng.chance(1, 2) { "ga" } else { "gb" }
         } else if self.rng.chance(1, 3) {
@@ -790,10 +816,14 @@ impl Sim {
         let next = WorkerId::new(self.world.server.worker_counter() + 1);
         let mut cfg = worker_config(next, 1, group, None);
         cfg.resources = desc;
-        self.log.push(format!("add_worker res={:?} group={group}", totals));
-        // the resource id of "gpus" may differ from its position when it was registered after other names
-        let op_group = group;
-        let _ = op_group;
+        self.do_add_worker(cfg);
+    }
+
+    pub fn do_add_worker(&mut self, cfg: WorkerConfiguration) {
+        let next = WorkerId::new(self.world.server.worker_counter() + 1);
+        let group = cfg.group.clone();
+        self.act_line(format!("add_worker {}", serde_json::to_string(&cfg).unwrap()));
+        self.log.push(format!("add_worker group={group}"));
         self.guarded(|s| {
             s.world.add_worker(cfg);
         });
@@ -828,6 +858,14 @@ impl Sim {
             LostWorkerReason::IdleTimeout,
             LostWorkerReason::TimeLimitReached,
         ]);
+        self.do_lose_worker(id, reason);
+    }
+
+    pub fn do_lose_worker(&mut self, id: u32, reason: LostWorkerReason) {
+        if !self.world.workers.contains_key(&id) {
+            return;
+        }
+        self.act_line(format!("lose_worker {id} {}", reason_name(reason)));
         self.log.push(format!("lose_worker {id} {}", reason_name(reason)));
         let order = self.world.server.assigned_order(WorkerId::new(id));
         let op = crate::coreview::lost_op(id, reason, &order);
@@ -835,6 +873,7 @@ impl Sim {
     }
 
     pub fn act_schedule(&mut self) {
+        self.act_line("schedule".to_string());
         self.world.now_ms += 10;
         self.log.push("schedule".to_string());
         self.world_action(vec!["sched".to_string()], |s| {
@@ -856,6 +895,15 @@ impl Sim {
             return false;
         }
         let (id, to_worker) = *self.rng.pick(&cands);
+        self.do_deliver(id, to_worker)
+    }
+
+    pub fn do_deliver(&mut self, id: u32, to_worker: bool) -> bool {
+        let Some(w) = self.world.workers.get(&id) else { return false };
+        if (to_worker && w.to_worker.is_empty()) || (!to_worker && w.to_server.is_empty()) {
+            return false;
+        }
+        self.act_line(format!("deliver {} {}", if to_worker { "s2w" } else { "w2s" }, id));
         let mut ops = vec![];
         {
             let w = &self.world.workers[&id];
@@ -896,6 +944,14 @@ impl Sim {
         }
         let (w, t) = *self.rng.pick(&running);
         let kind = if self.rng.chance(1, 4) { EndKind::Error } else { EndKind::Finished };
+        self.do_end_task(w, t, kind)
+    }
+
+    pub fn do_end_task(&mut self, w: u32, t: TaskId, kind: EndKind) -> bool {
+        if !self.world.running_tasks().contains(&(w, t)) {
+            return false;
+        }
+        self.act_line(format!("end_task {w} {} {}", tid(t), if kind == EndKind::Finished { "fin" } else { "err" }));
         self.log.push(format!("end_task w={w} {} {:?}", tid(t), kind));
         if kind == EndKind::Finished {
             self.mon.finished_ok.insert((w, t));
@@ -912,8 +968,73 @@ impl Sim {
             return;
         }
         let t = *self.rng.pick(&ids);
+        self.do_fail_next_launch(t);
+    }
+
+    pub fn do_fail_next_launch(&mut self, t: TaskId) {
+        self.act_line(format!("fail_next_launch {}", tid(t)));
         self.log.push(format!("fail_next_launch {}", tid(t)));
         self.world.launch.borrow_mut().fail_launch.insert(t);
+    }
+
+    /// the rest check of C02 (logged as an action so that a replay evaluates it at the same point)
+    pub fn do_rest_check(&mut self) {
+        self.act_line("rest_check".to_string());
+        let jobs = snapshot_jobs(&self.world.state_ref);
+        let snap = self.world.server.core_snapshot();
+        let completed = self.completed.clone();
+        self.mon.rest(&jobs, &snap, &completed);
+        let fails = std::mem::take(&mut self.mon.fails);
+        for f in fails {
+            self.job.lines.push(f.clone());
+            self.core.lines.push(f);
+        }
+    }
+
+    /// re-executes recorded `act …` lines (the text after "act ") on the real code
+    pub fn replay(&mut self, acts: &[String]) {
+        for a in acts {
+            if self.panicked.is_some() {
+                break;
+            }
+            let (kind, rest) = a.split_once(' ').unwrap_or((a.as_str(), ""));
+            let toks: Vec<&str> = rest.split(' ').collect();
+            let parse_tid = |s: &str| -> TaskId {
+                let (j, t) = s.split_once('.').unwrap();
+                TaskId::new(JobId::new(j.parse().unwrap()), JobTaskId::new(t.parse().unwrap()))
+            };
+            match kind {
+                "client" => {
+                    let (json, op) = rest.split_once(" ## ").expect("client act without op line");
+                    let msg: FromClientMessage = serde_json::from_str(json).expect("bad client json");
+                    self.client_action(op.to_string(), msg);
+                }
+                "add_worker" => {
+                    let cfg: WorkerConfiguration = serde_json::from_str(rest).expect("bad worker json");
+                    self.do_add_worker(cfg);
+                }
+                "lose_worker" => {
+                    let reason = match toks[1] {
+                        "stopped" => LostWorkerReason::Stopped,
+                        "connlost" => LostWorkerReason::ConnectionLost,
+                        "hblost" => LostWorkerReason::HeartbeatLost,
+                        "idle" => LostWorkerReason::IdleTimeout,
+                        _ => LostWorkerReason::TimeLimitReached,
+                    };
+                    self.do_lose_worker(toks[0].parse().unwrap(), reason);
+                }
+                "schedule" => self.act_schedule(),
+                "deliver" => {
+                    self.do_deliver(toks[1].parse().unwrap(), toks[0] == "s2w");
+                }
+                "end_task" => {
+                    self.do_end_task(toks[0].parse().unwrap(), parse_tid(toks[1]), if toks[2] == "fin" { EndKind::Finished } else { EndKind::Error });
+                }
+                "fail_next_launch" => self.do_fail_next_launch(parse_tid(toks[0])),
+                "rest_check" => self.do_rest_check(),
+                other => panic!("unknown act {other}"),
+            }
+        }
     }
 
     pub fn step(&mut self) {
@@ -969,11 +1090,7 @@ impl Sim {
                 if self.panicked.is_some() {
                     break;
                 }
-                self.log.push(format!("end_task w={w} {} Finished (drain)", tid(t)));
-                self.mon.finished_ok.insert((w, t));
-                self.world_action(vec![], |s| {
-                    s.world.end_task(w, t, EndKind::Finished);
-                });
+                self.do_end_task(w, t, EndKind::Finished);
                 progress = true;
             }
             if self.panicked.is_some() {
@@ -989,15 +1106,7 @@ impl Sim {
                 self.act_schedule();
                 let pending = self.world.workers.values().any(|w| !w.to_worker.is_empty() || !w.to_server.is_empty());
                 if !pending && self.world.running_tasks().is_empty() && !self.world.server.scheduling_flag() {
-                    let jobs = snapshot_jobs(&self.world.state_ref);
-                    let snap = self.world.server.core_snapshot();
-                    let completed = self.completed.clone();
-                    self.mon.rest(&jobs, &snap, &completed);
-                    let fails = std::mem::take(&mut self.mon.fails);
-                    for f in fails {
-                        self.job.lines.push(f.clone());
-                        self.core.lines.push(f);
-                    }
+                    self.do_rest_check();
                     return true;
                 }
             }
